@@ -91,6 +91,8 @@ impl<const N: usize> SecretKey<N> {
 
     pub(crate) fn gen_b0(seed: [u8; 32]) -> [Polynomial<i16>; 4] {
         let mut rng: StdRng = SeedableRng::from_seed(seed);
+        #[cfg(falcon_rust_verif)]
+        let mut rng = crate::verif_hooks::traced_stream(rng);
         let (f, g, capital_f, capital_g) = ntru_gen(N, &mut rng);
         [g, -f, capital_g, -capital_f]
     }
@@ -452,6 +454,8 @@ pub fn keygen<const N: usize>(seed: [u8; 32]) -> (SecretKey<N>, PublicKey<N>) {
 /// [1]: https://falcon-sign.info/falcon.pdf
 pub fn sign<const N: usize>(m: &[u8], sk: &SecretKey<N>) -> Signature<N> {
     let mut rng = thread_rng();
+    #[cfg(falcon_rust_verif)]
+    let mut rng = crate::verif_hooks::ambient_entropy(rng);
     let mut r = [0u8; 40];
     rng.fill_bytes(&mut r);
 
@@ -500,6 +504,12 @@ pub fn sign<const N: usize>(m: &[u8], sk: &SecretKey<N>) -> Signature<N> {
                 / (n as f64);
 
             if length_squared > (bound as f64) {
+                #[cfg(falcon_rust_verif)]
+                crate::verif_hooks::probe("sign.norm_reject");
+                continue;
+            }
+            #[cfg(falcon_rust_verif)]
+            if crate::verif_hooks::buggify("sign.norm_reject") {
                 continue;
             }
 
@@ -514,11 +524,19 @@ pub fn sign<const N: usize>(m: &[u8], sk: &SecretKey<N>) -> Signature<N> {
             params.sig_bytelen - 41,
         );
 
+        #[cfg(falcon_rust_verif)]
+        let maybe_s = if crate::verif_hooks::buggify("sign.compress_fail") {
+            None
+        } else {
+            maybe_s
+        };
         match maybe_s {
             Some(s) => {
                 break s;
             }
             None => {
+                #[cfg(falcon_rust_verif)]
+                crate::verif_hooks::probe("sign.compress_fail");
                 continue;
             }
         };
